@@ -29,10 +29,16 @@ def strRepl (mode : Nat) (c : UInt8) : List UInt8 :=
 
 def strExtensions : List UInt8 := [0x31, 0x32, 0x7a, 0x30]
 
+/-- positions at which single-character insertions / deletions are tried: around the prefix / version boundary and
+every 16th position after it -/
+def strEditPos (i : Nat) : Bool := decide (i < 12) || i % 16 == 0
+
 def strVariants (mode : Nat) (s : Bytes) : List Bytes :=
   ((List.range s.length).flatMap fun i => (strRepl mode (s.getD i 0)).map fun r => setAt s i r)
   ++ (List.range s.length).map (fun n => s.take n)
   ++ strExtensions.map (fun e => s ++ [e])
+  ++ ((List.range s.length).filter strEditPos).flatMap fun i =>
+      [s.take i ++ [0x31] ++ s.drop i, s.take i ++ [0x7a] ++ s.drop i, s.take i ++ s.drop (i + 1)]
 
 def errChar : Err → Char
   | .eof => 'f' | .varint => 'v' | .stream => 's' | .badlen => 'l' | .toolarge => 'L'
